@@ -52,6 +52,8 @@ type dtEval struct {
 	// bodies: source ranges of the function's bodies (declaration and literals); occurrences are ranked within the
 	// innermost body that contains them, so that an unrelated literal (a deferred logger) does not shift the numbering
 	bodies [][2]token.Pos
+	// root: body of the function the row is about (for single-definition aliases of receiver fields)
+	root ast.Node
 }
 
 func newDtEval(e *Env) *dtEval {
@@ -69,6 +71,12 @@ func (ev *dtEval) canon(x ast.Expr, fr *dtFrame) string {
 		}
 		if o != nil && o == fr.recv {
 			return "$"
+		}
+		// a local that is nothing but a name for a field of the receiver (single definition, `x := recv.f.g`) reads as that field
+		if ev.root != nil && o != nil && len(fr.subst) == 0 {
+			if d := an.SingleDef(fr.info, ev.root, o); d != nil && ev.isRecvField(d, fr) {
+				return ev.canon(d, fr)
+			}
 		}
 		return v.Name
 	case *ast.SelectorExpr:
@@ -91,6 +99,28 @@ func (ev *dtEval) canon(x ast.Expr, fr *dtFrame) string {
 		return v.Op.String() + ev.canon(v.X, fr)
 	}
 	return an.ExprString(x)
+}
+
+// isRecvField: x is a selector chain of fields rooted at the outermost receiver.
+func (ev *dtEval) isRecvField(x ast.Expr, fr *dtFrame) bool {
+	x = an.Unparen(x)
+	sel, ok := x.(*ast.SelectorExpr)
+	if !ok || an.SelectedField(fr.info, sel) == nil {
+		return false
+	}
+	for {
+		switch v := an.Unparen(sel.X).(type) {
+		case *ast.Ident:
+			return fr.recv != nil && fr.info.ObjectOf(v) == fr.recv
+		case *ast.SelectorExpr:
+			if an.SelectedField(fr.info, v) == nil {
+				return false
+			}
+			sel = v
+			continue
+		}
+		return false
+	}
 }
 
 // atomName: with occurrence numbering, base names seen at several positions get #k (k = rank of the position).
